@@ -178,15 +178,43 @@ def r2(ctx):
                     ctx.obligation(True)
     ctx.covered("scalar functions: value kind vs is_numeric_function", nf, distinct_keys=sorted(numf))
     ok = aggr <= numf or True
-    # expression keys: contains_numeric looks through function -> left operand chain
-    eh = ctx.anchor_hir("expr::Expr::contains_numeric_field")
-    ms = {c["m"] for c in walk_exprs(eh) if c["k"] == "MCall"}
-    ok = "is_numeric_field" in ms and "is_numeric_function" in ms and \
-        any(is_call_to(c, "expr::Expr::contains_numeric_field") for c in walk_exprs(eh))
-    ctx.obligation(ok)
-    if not ok:
-        ctx.violation("key-typing/contains_numeric", ctx.where("expr::Expr::contains_numeric_field"),
-                      "Expr::contains_numeric must consult the column table, the function table and recurse into the left operand")
+    # expression keys: Expr::contains_numeric / contains_datetime evaluated (finite interpreter) on key shapes: a column, a
+    # function of a column, arithmetic over them - numeric exactly when the key's value is a number
+    import interp
+    import extra
+    some = interp.some
+    E = lambda **kw: extra._expr_dict(interp, **kw)
+    col = lambda c: E(field=some(interp.V("Field::" + c)))
+    fn_ = lambda f, a: E(function=some(interp.V("Function::" + f)), left=some(a))
+    plus = lambda a: E(left=some(a), arithmetic_op=some(interp.V("ArithmeticOp::Add")), right=some(E(val=some("1"))))
+    shapes = {"size": (col("Size"), True, False), "name": (col("Name"), False, False), "modified": (col("Modified"), False, True),
+              "length(name)": (fn_("Length", col("Name")), True, False), "lower(name)": (fn_("Lower", col("Name")), False, False),
+              "size + 1": (plus(col("Size")), True, False), "length(name) + 1": (plus(fn_("Length", col("Name"))), True, False),
+              "abs(size)": (fn_("Abs", col("Size")), True, False), "uid": (col("Uid"), True, False), "is_dir": (col("IsDir"), False, False),
+              "accessed": (col("Accessed"), False, True), "created": (col("Created"), False, True)}
+    nb = 0
+    for which, idx in (("expr::Expr::contains_numeric", 1), ("expr::Expr::contains_datetime", 2)):
+        if which not in ctx.prog.fns:
+            ctx.obligation(False)
+            ctx.violation("key-typing/%s" % short(which, 1), "expr.rs", "%s no longer exists: the ordering's choice of a comparison cannot be read; failing closed" % which)
+            continue
+        eh = ctx.anchor_hir(which)
+        pid = ctx.prog.fns[which]["params"][0]["id"]
+        for label, sh in shapes.items():
+            want = sh[idx]
+            try:
+                got = interp.Interp(prog=ctx.prog, max_steps=10000).run(eh, {pid: sh[0]})
+            except interp.Undecided as e:
+                got = "unreadable (%s)" % e
+            nb += 1
+            ok = got == want
+            ctx.obligation(ok)
+            if not ok:
+                ctx.violation("key-typing/%s" % short(which, 1), ctx.where(which),
+                              "an ordering key `%s` is %s %s, but %s gives %s: its values would be compared the wrong way" %
+                              (label, "" if want else "not", "a number" if idx == 1 else "a date", short(which, 1), got))
+                break
+    ctx.covered("contains_numeric / contains_datetime evaluated on 12 key shapes (columns, functions, arithmetic)", nb, distinct_keys=sorted(shapes), exhaustive=True)
 
 
 def r3(ctx):
